@@ -1556,13 +1556,38 @@ package main
 //@   ensures @prints-are-redirected-in-every-file-but-print.go: srWalks == old(srWalks) + ite(basename != "print.go", 1, 0)
 //@ end
 
+//@ hookset rtpatchentry
+//@ hook before strconv.FormatUint(v, b)
+//@   assert("[C12] the-number-written-into-the-source-is-the-key-in-decimal", v == uint64(entryOffKey) && b == 10)
+//@ end
+
+//@ hookset rtpatchmagic
+//@ hook before strconv.FormatUint(v, b)
+//@   assert("[C12] the-number-written-into-the-source-is-the-magic-value-in-decimal", v == uint64(magicValue) && b == 10)
+//@ end
+
+// The outer function stays trusted: ast.Inspect is modelled as a pure call, so the flag its callback
+// sets cannot be followed; the callback itself (below) is under contract.
 //@ func updateEntryOffset
-//@   trusted rewrites one constant expression in runtime/symtab.go
+//@   trusted finds funcInfo.entry and walks it with the callback below; panics unless the callback fired
 //@   assigns *
+//@ end
+
+//@ func updateEntryOffset#updateEntryOff
+//@   property C12
+//@   hooks rtpatchentry
+//@   skip safety call-requires
+//@   assigns *
+//@ end
 
 //@ func updateMagicValue
-//@   trusted rewrites one constant in internal/abi/symtab.go
+//@   property C12
+//@   hooks rtpatchmagic
+//@   skip safety call-requires
+//@   may_panic when true
 //@   assigns *
+//@   ensures @the-magic-constant-is-replaced-or-the-build-stops: magicUpdated
+//@ end
 
 //@ func (*transformer).transformCompile
 //@   property C01 C02 C03 C05 C09 C10 C12
